@@ -282,7 +282,28 @@ func c02Run(c *Ctx) {
 		}
 		c.Eval(1)
 		if o.Kind == mon.Panic {
-			c.Violation("history:panic", "step %d (%s): %s", step, action, o.Describe())
+			// the freshly loaded model is the reference here too: a request that makes a fresh
+			// model panic as well (e.g. a fed-back int64 result used as a ConstantOfShape shape
+			// asking for 2^63 elements) is not a dependence on history; the history ends there
+			fo := mon.Capture(nil, func() ([]tensor.Tensor, error) {
+				fm, err := gonnx.NewModelFromBytes(spec.Bytes)
+				if err != nil {
+					return nil, err
+				}
+				fin := gonnx.Tensors{}
+				for k, v := range feed {
+					fin[k] = mon.ToTensor(v)
+				}
+				_, err = fm.Run(fin)
+				return nil, err
+			})
+			c.Eval(1)
+			if fo.Kind == mon.Panic {
+				c.Count("runs-that-panic-on-a-fresh-model-as-well(history ended)", 1)
+				c.SetCase("model %s | history %s (ended by a Run that panics on a fresh model too)", trunc(desc, 600), strings.Join(actions, ","))
+				return
+			}
+			c.Violation("history:panic", "step %d (%s): %s | a freshly loaded model gives %s | history %s", step, action, o.Describe(), trunc(fo.Describe(), 200), strings.Join(actions, ","))
 			return
 		}
 		// the reference: a freshly loaded model with deep copies
